@@ -16,9 +16,9 @@ MANIFEST = {
     "technique": "exhaustive depth-bounded exploration of trajectory-operation histories on real objects against an "
                  "array-tuple reference model, with a precentered-vs-from-scratch RMSD differential in every state",
     "text": "From 3 initial trajectories (5 frames/7 atoms incl. waters with cell and explicit time; no cell/default time; "
-            "1 frame) every sequence of up to 2 (thorough 3) operations of a 28-op alphabet {t[0], t[-1], t[1:4], t[::2], "
-            "t[::-1], t[[3,1]], t[mask], slice(copy=False), t+t, join([..]), md.join, stack, atom_slice (inplace F/T), "
-            "center_coordinates (mass_weighted F/T), superpose onto itself and onto an off-origin reference, remove_solvent (inplace F/T), xyz/time/unitcell assignment} "
+            "1 frame) every sequence of up to 2 (thorough 3) operations of a 30-op alphabet {t[0], t[-1], t[1:4], t[::2], "
+            "t[::-1], t[[3,1]], t[mask], slice(copy=False), t+t, join([..]), md.join, join(discard_overlapping_frames=True) over a real overlap, stack, atom_slice (inplace F/T), "
+            "center_coordinates (mass_weighted F/T), superpose onto itself and onto an off-origin reference, remove_solvent (inplace F/T, and with exclude=), xyz/time/unitcell assignment} "
             "is executed. After every step: all fields equal the model (same numpy indexing) and have equal length; result "
             "coordinates never share memory with an input; slice(copy=True)/join/atom_slice share no array or topology "
             "object; md.rmsd(precentered=True) equals precentered=False for every frame within the QCP error model; in "
@@ -100,11 +100,13 @@ class Model:
             ops.append(("fancy", (3, 1)))
         ops.append(("slice_nocopy",))
         ops += [("add",), ("join_list",), ("mdjoin",)]
+        if nf >= 2:
+            ops.append(("join_discard",))
         ops.append(("stack",))
         if na >= 2:
             ops += [("atom_slice", False), ("atom_slice", True)]
         ops += [("center", False), ("center", True), ("superpose",), ("superpose_shifted",)]
-        ops += [("remove_solvent", False), ("remove_solvent", True)]
+        ops += [("remove_solvent", False), ("remove_solvent", True), ("remove_solvent_exclude",)]
         ops += [("set_xyz",), ("set_time",)]
         if self.L is not None:
             ops += [("set_lengths",), ("set_angles",)]
@@ -142,6 +144,13 @@ class Model:
             self._cat(3)
         elif k == "mdjoin":
             self._cat(2, tail=1)
+        elif k == "join_discard":
+            # t.join(u, discard_overlapping_frames=True) with u = t[[last, first]]: t's last frame equals u's first one
+            # and is discarded, so the result is t[:-1] followed by u
+            idx = list(range(self.nf - 1)) + [self.nf - 1, 0]
+            self._index(idx)
+        elif k == "remove_solvent_exclude":
+            pass        # exclude=['HOH'] keeps the waters: nothing is removed (a new trajectory is returned)
         elif k == "stack":
             self.xyz = np.concatenate([self.xyz, self.xyz[:, :1]], axis=1)
             self.names = self.names + self.names[:1]
@@ -220,6 +229,11 @@ def apply_real(t, op):
     if k == "mdjoin":
         u = t[:1]
         return md.join([t, u]), [t, u], "none"
+    if k == "join_discard":
+        u = t[[t.n_frames - 1, 0]]
+        return t.join(u, discard_overlapping_frames=True), [t, u], "none"
+    if k == "remove_solvent_exclude":
+        return t.remove_solvent(exclude=["HOH"]), [t], "none"
     if k == "stack":
         w = t.atom_slice([0])
         return t.stack(w), [t, w], "xyz"
